@@ -545,6 +545,9 @@ def _v1_defined_gotos(src):
 
 def gen_v1_rt(rng, depth):
     src = "define user express greeting\n  \"hello\"\n\n" + _v1_defined_gotos(gen_v1_src(rng, depth))
+    if rng.random() < 0.5:
+        # subflows start with a `meta` element which `_load_flow_config` slices off (`elements[1:]`) AFTER the offsets were computed
+        src = re.sub(r"(?m)^define flow (f[12])$", lambda m: "define subflow " + m.group(1), src)
     steps = [["new"]]
     for _ in range(rng.choice([1, 2, 3])):
         r = rng.random()
